@@ -268,6 +268,27 @@ def settle_bounds(chk, prog, roots, exempt=("filippo.io/edwards25519.checkInitia
         chk.violation("multi-scalar routines above the symbolic bound", hit["what"], hit)
 
 
+def settle_bounds_history(chk, prog, roots, exempt=("filippo.io/edwards25519.checkInitialized", "(*filippo.io/edwards25519.Scalar).nonAdjacentForm")):
+    """bounds_cover_code for the whole-API effect sweeps (C18/C19): code that only larger slice lengths reach was not
+    looked at; the history battery is then run with term counts around the constants of that code"""
+    from sym import ptreplay
+    consts = bounds_cover_code(chk, prog, roots, exempt)
+    ob = chk.obs[-1]
+    if ob.ok():
+        return
+    chk.extra["history_term_counts_from_constants"] = consts
+    try:
+        hit = ptreplay.battery_history_sizes(chk.seed, consts) or ptreplay.battery_multiscalar_sizes(chk.seed, sorted({n for c in (consts or [8, 64]) for n in (c, c + 1, 2 * c + 1) if n <= 600})[:8])
+    except Exception as e:
+        import traceback
+        traceback.print_exc()
+        chk.note_inconclusive("large-n history battery failed: %r" % (e,))
+        return
+    if hit:
+        ob.verdict = "violated"
+        chk.violation("multi-scalar routines above the symbolic bound", hit["what"], hit)
+
+
 def state_shape(chk, prog):
     """the inductive arguments quantify over 'an arbitrary valid Point / Scalar / Element' = arbitrary values of the
     coordinate / limb fields.  If a type has gained further fields (caches, flags), a pre-state is more than that and the
